@@ -82,6 +82,99 @@ WITNESS = {
     "literal-bool-int-collapse": "from typing import Literal\ndef f(x: Literal[1, True]): return x\n",
 }
 
+# C05 strengthening: special method names the way users write them - with and without explicit
+# decorators, with conventional and unconventional first-parameter names, overloaded, abstract.
+# The stub reader / printer / inferencer decide the kind (method / classmethod / staticmethod) of
+# __new__, __init_subclass__ (and only those) by NAME; every other dunder keeps the kind its
+# decorator states.  Kept apart from DIALECT (which C12 shares).
+DUNDER = [
+    # the implicit-kind trio, undecorated (how they are always written)
+    "class Registry:\n  def __class_getitem__(cls, item):\n    return cls\n",
+    "class Base:\n  subs = []\n  def __init_subclass__(cls, **kwargs):\n    super().__init_subclass__(**kwargs)\n    Base.subs.append(cls)\n"
+    "class D(Base): pass\n",
+    "class P:\n  def __new__(cls, x):\n    self = super().__new__(cls)\n    self.x = x\n    return self\n  def __init__(self, x):\n    self.y = x\n",
+    "class A:\n  def __new__(cls, x):\n    return super().__new__(cls)\n  def __init_subclass__(cls, **kw):\n    super().__init_subclass__(**kw)\n"
+    "  def __class_getitem__(cls, item):\n    return cls\n",
+    # the same, explicitly decorated
+    "class A:\n  @staticmethod\n  def __new__(cls, x):\n    return object.__new__(cls)\n  @classmethod\n  def __init_subclass__(cls, **kw):\n    pass\n"
+    "  @classmethod\n  def __class_getitem__(cls, item):\n    return cls\n",
+    "class A:\n  @classmethod\n  def __class_getitem__(cls, item):\n    return list\nx = A[int]\n",
+    # generic class (typing.Generic brings its own __class_getitem__) with __init__
+    "from typing import Generic, TypeVar\nT = TypeVar('T')\nclass Box(Generic[T]):\n  def __init__(self, x: T) -> None:\n    self.x = x\n"
+    "  def __class_getitem__(cls, item):\n    return super().__class_getitem__(item)\n",
+    # containers, callables, context managers
+    "class Bag:\n  def __init__(self): self.d = {}\n  def __getitem__(self, k): return self.d[k]\n  def __setitem__(self, k, v): self.d[k] = v\n"
+    "  def __delitem__(self, k): del self.d[k]\n  def __len__(self): return len(self.d)\n  def __iter__(self): return iter(self.d)\n"
+    "  def __contains__(self, k): return k in self.d\n",
+    "class F:\n  def __call__(self, x: int, *args, **kwargs) -> str: return str(x)\n  def __enter__(self): return self\n"
+    "  def __exit__(self, exc_type, exc, tb): return False\nr = F()(1)\n",
+    # attribute hooks, in a class and at module level
+    "class Lazy:\n  def __getattr__(self, name: str): return 1\n  def __setattr__(self, name, value): object.__setattr__(self, name, value)\n"
+    "  def __getattribute__(self, name): return object.__getattribute__(self, name)\n  def __delattr__(self, name): pass\n  def __dir__(self): return []\n",
+    "def __getattr__(name: str):\n  raise AttributeError(name)\ndef __dir__():\n  return []\n",
+    "def __getattr__(name): return 1\ndef __new__(x): return x\ndef __init_subclass__(x): return x\ndef __class_getitem__(x): return 1\ndef __call__(self): return self\n",
+    # comparisons, hashing, arithmetic
+    "class V:\n  def __init__(self, v: int): self.v = v\n  def __eq__(self, other): return isinstance(other, V) and self.v == other.v\n"
+    "  def __ne__(self, other): return not self == other\n  def __lt__(self, other: 'V') -> bool: return self.v < other.v\n  def __hash__(self): return hash(self.v)\n"
+    "  def __add__(self, other): return V(self.v + other.v)\n  def __radd__(self, other): return self\n  def __iadd__(self, other): return self\n"
+    "  def __bool__(self): return bool(self.v)\n  def __repr__(self): return 'V'\n",
+    "class U:\n  def __eq__(self, other): return NotImplemented\n  __hash__ = None\n",
+    # metaclass
+    "class M(type):\n  def __call__(cls, *a):\n    return super().__call__(*a)\n  def __new__(mcs, name, bases, ns):\n    return super().__new__(mcs, name, bases, ns)\n"
+    "  def __init__(cls, name, bases, ns):\n    super().__init__(name, bases, ns)\n  def __instancecheck__(cls, inst): return True\n"
+    "  @classmethod\n  def __prepare__(mcs, name, bases): return {}\nclass K(metaclass=M): pass\n",
+    # overloads
+    "from typing import overload\nclass A:\n  @overload\n  def __getitem__(self, i: int) -> int: ...\n  @overload\n  def __getitem__(self, i: slice) -> list: ...\n"
+    "  def __getitem__(self, i): return i\n  @overload\n  def __new__(cls, x: int) -> 'A': ...\n  @overload\n  def __new__(cls, x: str) -> 'A': ...\n"
+    "  def __new__(cls, x): return object.__new__(cls)\n",
+    "from typing import overload\nclass A:\n  @overload\n  def __class_getitem__(cls, i: int) -> int: ...\n  @overload\n  def __class_getitem__(cls, i: str) -> str: ...\n"
+    "  def __class_getitem__(cls, i): return i\n  @overload\n  def __call__(self, x: int) -> int: ...\n  @overload\n  def __call__(self, x: str) -> str: ...\n"
+    "  def __call__(self, x): return x\n",
+    "from typing import overload\nclass A:\n  @overload\n  @classmethod\n  def __class_getitem__(cls, i: int) -> int: ...\n  @overload\n  @classmethod\n"
+    "  def __class_getitem__(cls, i: str) -> str: ...\n  @classmethod\n  def __class_getitem__(cls, i): return i\n",
+    # abstract
+    "import abc\nclass A(abc.ABC):\n  @abc.abstractmethod\n  def __call__(self): ...\n  @classmethod\n  @abc.abstractmethod\n  def __class_getitem__(cls, i): ...\n"
+    "  @abc.abstractmethod\n  def __getitem__(self, i): ...\n",
+    "import abc\nclass A(abc.ABC):\n  @abc.abstractmethod\n  def __new__(cls): ...\n  @abc.abstractmethod\n  def __init_subclass__(cls): ...\n"
+    "  @abc.abstractmethod\n  def __class_getitem__(cls, k): ...\n  @abc.abstractmethod\n  def __init__(self): ...\n",
+    # unusual but legal decorators on dunders
+    "class A:\n  @staticmethod\n  def __class_getitem__(item):\n    return 1\n  @staticmethod\n  def __call__(x): return x\n  @classmethod\n  def __eq__(cls, other): return True\n"
+    "  @staticmethod\n  def __getitem__(k): return k\n  @classmethod\n  def __getattr__(cls, name): return 1\n",
+    "class A:\n  @classmethod\n  def __init__(cls, x): pass\n  @staticmethod\n  def __hash__(): return 1\n  @classmethod\n  def __enter__(cls): return cls\n"
+    "  @staticmethod\n  def __exit__(*a): return None\n",
+    # first-parameter names other than self / cls
+    "class A:\n  def __init_subclass__(klass): pass\n  def __class_getitem__(klass, k): return 1\n  def __init__(this, x): this.x = x\n  def __call__(me): return me\n"
+    "  def __eq__(a, b): return True\n",
+    "class A:\n  def __class_getitem__(self, k): return self\n  def __call__(cls): return cls\n  def __getitem__(other, k): return k\n",
+    # async protocol, descriptors, pickling
+    "class A:\n  async def __aenter__(self): return self\n  async def __aexit__(self, *a): return None\n  def __await__(self): return iter([])\n"
+    "  def __aiter__(self): return self\n  async def __anext__(self): return 1\n",
+    "class D:\n  def __get__(self, obj, objtype=None): return 1\n  def __set__(self, obj, v): pass\n  def __delete__(self, obj): pass\n"
+    "  def __set_name__(self, owner, name): self.n = name\nclass A:\n  d = D()\nv = A().d\n",
+    "class A:\n  def __reduce__(self): return (A, ())\n  def __copy__(self): return self\n  def __deepcopy__(self, memo): return self\n"
+    "  def __getstate__(self): return {}\n  def __setstate__(self, s): pass\n  def __sizeof__(self): return 1\n  def __format__(self, spec): return ''\n",
+    # properties under dunder names, class-level assignment of dunders
+    "class A:\n  @property\n  def __dict__(self): return {}\n  @property\n  def __doc2__(self) -> str: return ''\n  __slots__ = ()\n",
+    "class A:\n  def f(self, k): return k\n  __getitem__ = f\n  __call__ = f\n  __class_getitem__ = classmethod(lambda cls, k: k)\n",
+    # builtin subclasses, NamedTuple, dataclass-like, nested class
+    "class S(str):\n  def __new__(cls, v):\n    return super().__new__(cls, v)\nclass T(tuple):\n  def __new__(cls, a, b):\n    return tuple.__new__(cls, (a, b))\n"
+    "class I(int):\n  def __init__(self, v): pass\n",
+    "import dataclasses\n@dataclasses.dataclass\nclass P:\n  x: int\n  y: int = 0\n  def __post_init__(self):\n    self.z = self.x + self.y\n",
+    "import collections\nclass P(collections.namedtuple('P', ['x'])):\n  def __new__(cls, x):\n    return super().__new__(cls, x)\n  def __str__(self): return 'P'\n"
+    "  def __call__(self): return self.x\n",
+    "class Outer:\n  class Inner:\n    def __class_getitem__(cls, item): return cls\n    def __new__(cls): return object.__new__(cls)\n"
+    "    def __init_subclass__(cls): pass\n    def __call__(self): return 1\n  def __call__(self): return Outer.Inner()\n",
+    "import enum\nclass E(enum.Enum):\n  A = 1\n  def __str__(self): return 'e'\n  def __call__(self): return 1\n  @classmethod\n  def __class_getitem__(cls, k): return cls.A\n",
+]
+
+# minimal witnesses of the findings made with the special-name alphabet
+DUNDER_WITNESS = {
+    "classmethod-new-read-as-staticmethod": "class A:\n  @classmethod\n  def __new__(cls, *args):\n    return 1\n",
+    "module-getattr-overloads-rejected":
+        "from typing import overload\n@overload\ndef __getattr__(name: int) -> int: ...\n@overload\ndef __getattr__(name: str) -> str: ...\n"
+        "def __getattr__(name): return name\n",
+}
+
 # C12: minimal witness of the serialisation finding
 C12_WITNESS = {
     "alias-node-in-type-position": "class C:\n  import sys\n",
